@@ -106,11 +106,19 @@ AuditLegal ==
          batch is checked to its end and the Python side can match failures against known findings. *)
 ASSUME TLCSet(1, [i \in 1..Len(Traces) |-> 1])
 ASSUME TLCSet(2, {})
+(* C01, sharpened for runs in which the queue itself chose every delivery (one worker, the in-order drivers) and the
+   interrupted message's lock had lapsed before anything else was delivered: such a run is deterministic, so after a
+   crash EVERY stage - the schedule-dependent ones too - ends as in the uninterrupted run.  Recorded runs say so in
+   their first event (strict = TRUE). *)
+StrictRun == Len(Events) >= 1 /\ "strict" \in DOMAIN Events[1] /\ Events[1].strict
+StrictOutcome == (StrictRun /\ Quiescent /\ cnt.crashes = 1) =>
+                    \A s \in DOMAIN st : s \in Racy => st[s].status = (IF Ref.st[s] = "ABSENT" THEN "NOT_STARTED" ELSE Ref.st[s])
 Rec(n) == TLCSet(2, TLCGet(2) \cup {<<tid, l, n>>})
 Progress ==
   /\ IF l > TLCGet(1)[tid] THEN TLCSet(1, [TLCGet(1) EXCEPT ![tid] = l]) ELSE TRUE
   /\ \A n \in FailedState : Rec(n)
   /\ ("C06_Legal" \in CheckProps /\ ~AuditLegal) => Rec("C06_AuditLegal")
+  /\ ("C01_SameOutcome" \in CheckProps /\ ~StrictOutcome) => Rec("C01_StrictOutcome")
 (* C01 / C02 / C10 data clause: what a task sees (hash of the user-visible context handed to Task.execute, logged
    with every exec event) is one of the views it saw in the fault-free in-order run *)
 SameData == (l <= Len(Events) /\ Ev.e = "exec" /\ "vh" \in DOMAIN Ev /\ Ev.task \in DOMAIN RefViews)
